@@ -210,6 +210,14 @@ Theorem C16_model_holds_partial : forall c,
 Proof. exact model_holds_paths. Qed.
 Print Assumptions C16_model_holds_partial.
 
+(* ... and, for zip / tar targets, the "raised => nothing was written" and "nothing outside the target"
+   clauses (the archive writers of the model cannot fail after the path stage) *)
+Theorem C16_model_holds_archive_partial : forall c,
+  mismatch_C16 c = false -> c_kind c <> KDir ->
+  h_raise_clean c = true /\ h_export_contained c = true.
+Proof. exact model_holds_archive. Qed.
+Print Assumptions C16_model_holds_archive_partial.
+
 (* ====================================================================================================
    non-vacuity: the hypotheses above are satisfiable by concrete, non-trivial inputs *)
 Example C16_example_dst_safe :
